@@ -584,6 +584,7 @@ size_t rtosc_message_ring_length(ring_t *ring)
         return bundle_ring_length(ring);
 
     //Proceed for normal messages
+    const size_t total = ring[0].len+ring[1].len;
     //Consume path
     unsigned pos = 0;
     while(deref(pos++,ring));
@@ -642,6 +643,9 @@ size_t rtosc_message_ring_length(ring_t *ring)
                 i |= (deref(pos++,ring) << 16);
                 i |= (deref(pos++,ring) << 8);
                 i |= (deref(pos++,ring));
+                //Blob runs past the end of the available data
+                if(pos > total || i > total-pos)
+                    return 0;
                 pos += i;
                 if((pos-aligned_pos)%4)
                     pos += 4-(pos-aligned_pos)%4;
@@ -653,7 +657,7 @@ size_t rtosc_message_ring_length(ring_t *ring)
     }
 
 
-    return pos <= (ring[0].len+ring[1].len) ? pos : 0;
+    return pos <= total ? pos : 0;
 }
 
 size_t rtosc_message_length(const char *msg, size_t len)
